@@ -393,6 +393,11 @@ class ClassFolder:
             for a, d in zip(fn.args.kwonlyargs, fn.args.kw_defaults):
                 if a.arg not in env and d is not None:
                     env[a.arg] = Lit(self.repo, self.modname).ev(d)
+            missing = [p for p in params if p not in env]
+            if missing:
+                raise TypeError("%s() missing %d required positional argument%s: %s" % (fn.name, len(missing), 's' if len(missing) > 1 else '', ', '.join(repr(m) for m in missing)))
+            if len(args) > len(params) and fn.args.vararg is None:
+                raise TypeError("%s() takes %d positional arguments but %d were given" % (fn.name, len(params), len(args)))
             ff = FuncFold(self.repo, self.modname, {}, self.hook(cls, self_obj))
             ff.attrs = None
             return ff.call(fn, env)
